@@ -1,5 +1,7 @@
 import ZapVerif.Proofs.Bws
 import ZapVerif.Proofs.BwsConc
+import ZapVerif.Model.BwsSkel
+import ZapVerif.Gen.BwsFacts
 /-! # C12 — BufferedWriteSyncer delivers every byte once, in order, in whole writes
 
 Part 1 (this section): one `BufferedWriteSyncer{WS: sink, Size: size}` driven by an arbitrary history of
@@ -432,6 +434,49 @@ example : ((runActs { n := 2 } init
        .client 0, .client 0, .client 0, .client 0, .client 1, .client 1, .client 1, .client 1]).map
       fun s => (s.cl 0, s.cl 1, s.loop, s.stopped, s.flushed, s.accAtStop, s.panicked)) =
     some (.idle, .idle, .finished, true, 1, 1, false) := by rfl
+
+/-! ## the tie of the thread machine to the source (table `Gen/BwsFacts.lean`, re-extracted on every run) -/
+
+/-- the synchronisation skeleton `BwsConc.cstep` / `lstep` were transcribed from: mutexes, channels and flags of the
+    type, and every method's lock / unlock / close / receive / go / flag assignment / own-method call with the control
+    structure around them.  (`Write` and `Sync` take `s.mu` with a deferred unlock; `initialize` starts exactly one
+    flush goroutine; `flushLoop` selects on `ticker.C` and `stop` without a default and closes `done` when it returns;
+    `Stop` takes `stopMu` for the whole call, signals under `s.mu` after the two flag tests, then waits and syncs.) -/
+def expectedSkeleton : List (String × List (String × String)) := [
+  ("Stop", [("lock", "s.stopMu"), ("defer-unlock", "s.stopMu"),
+            ("func-call", ""), ("lock", "s.mu"), ("defer-unlock", "s.mu"),
+              ("if", "!s.initialized"), ("return", ""), ("end", ""),
+              ("if", "s.stopped"), ("return", ""), ("end", ""),
+              ("set", "s.stopped = true"), ("close", "s.stop"), ("return", ""), ("end", ""),
+            ("if", "!stopped"), ("return", ""), ("end", ""),
+            ("recv", "s.done"), ("call", "s.Sync"), ("return", "")]),
+  ("Sync", [("lock", "s.mu"), ("defer-unlock", "s.mu"), ("if", "s.initialized"), ("end", ""), ("return", "")]),
+  ("Write", [("lock", "s.mu"), ("defer-unlock", "s.mu"),
+             ("if", "!s.initialized"), ("call", "s.initialize"), ("end", ""),
+             ("if", "…"), ("if", "…"), ("return", ""), ("end", ""), ("end", ""), ("return", "")]),
+  ("flushLoop", [("defer-close", "s.done"), ("for", ""), ("select", ""),
+                 ("case-recv", "s.ticker.C"), ("call", "s.Sync"),
+                 ("case-recv", "s.stop"), ("return", ""), ("end", ""), ("end", "")]),
+  ("initialize", [("set", "s.stop = make(…)"), ("set", "s.done = make(…)"), ("set", "s.initialized = true"),
+                  ("go", "s.flushLoop")])]
+
+theorem skeleton_as_modelled :
+    Gen.bwsSkeleton = expectedSkeleton ∧
+    Gen.bwsSyncFields = ["stopMu sync.Mutex", "mu sync.Mutex", "initialized bool", "stopped bool", "stop chan", "done chan"] := by
+  decide
+
+/-- what the machine's shape depends on, read off the extracted skeleton by the lock-set analysis `BwsSkel.heldAt`:
+    `Stop` waits for `done` and runs its final `Sync` holding `stopMu` only — not `s.mu` (issue 1428) —, closes `stop`
+    under both mutexes, the flush goroutine calls `Sync` holding nothing, and `initialize` (hence `go flushLoop`)
+    runs under `s.mu` -/
+theorem wait_for_done_outside_mu :
+    BwsSkel.heldWhen Gen.bws_Stop ("recv", "s.done") = [["s.stopMu"]] ∧
+    BwsSkel.heldWhen Gen.bws_Stop ("call", "s.Sync") = [["s.stopMu"]] ∧
+    BwsSkel.heldWhen Gen.bws_Stop ("close", "s.stop") = [["s.mu", "s.stopMu"]] ∧
+    BwsSkel.heldWhen Gen.bws_Stop ("set", "s.stopped = true") = [["s.mu", "s.stopMu"]] ∧
+    BwsSkel.heldWhen Gen.bws_flushLoop ("call", "s.Sync") = [[]] ∧
+    BwsSkel.heldWhen Gen.bws_Write ("call", "s.initialize") = [["s.mu"]] := by
+  decide
 
 end Conc
 
